@@ -70,6 +70,8 @@ pub fn generate(check: &str, tier: &str, seed: u64, run: u64) -> Case {
         "C04" if run % 12 == 5 => crate::gen::gen_many_stores_mp(&mut rng, true),
         "C04" if run % 12 == 8 => crate::gen::gen_trylock_no_handover(&mut rng),
         "C07" if run % 24 == 8 => crate::gen::gen_trylock_no_handover(&mut rng),
+        "C07" if run % 12 == 9 => crate::gen::gen_try_decidable(&mut rng),
+        "C01" if run % 12 == 9 => crate::gen::gen_try_decidable(&mut rng),
         "C02" | "C03" => gen_litmus_any(&mut rng, thorough),
         "C01" => {
             if rng.chance(1, 4) {
@@ -430,7 +432,7 @@ fn judge_inner(check: &str, tier: &str, case: &Case, seed: u64, run: u64) -> Cas
     // (their validity, O2/O3b, still is). The finding itself is probed by fixed witness programs.
     let ws = witnesses(check);
     let is_witness = (run as usize) < ws.len();
-    if (has_yield(&case.program) || has_try_acquire(&case.program) || has_unpark_order_sensitivity(&case.program) || (check != "C02" && has_sc_fence_order_sensitivity(&case.program)))
+    if (has_yield(&case.program) || (has_try_acquire(&case.program) && !try_acquires_decidable(&case.program)) || has_unpark_order_sensitivity(&case.program) || (check != "C02" && has_sc_fence_order_sensitivity(&case.program)))
         && !is_witness
     {
         // (what loom did explore is still judged iteration by iteration)
@@ -477,6 +479,109 @@ pub fn has_try_acquire(p: &Program) -> bool {
         let o = op.inner();
         matches!(o, Op::TryLock { .. } | Op::TryRLock { .. } | Op::TryWLock { .. })
     })
+}
+
+/// Programs with try-acquires whose completeness verdict does NOT depend on what finding K6
+/// hides. K6: `unlock` is glued to the tracked operation X that precedes it and loom treats X and
+/// another thread's try-acquire as independent, so swapping them changes the try's result without
+/// loom exploring both orders. That cannot happen when, for every lock L that is try-acquired:
+///  (A) X is the acquire of L itself - the critical section contains no operation with a
+///      scheduling point (cell accesses only), or
+///  (B) X is a `recv` on a channel that only the (single) trying thread sends on, and only after
+///      its last try-acquire - X happens-after every try, the holder is blocked at each of them.
+/// Then every try's result is a function of the order of the acquire operations on L, which
+/// loom's partial-order reduction does track, and the coarse-granularity MUST walk is a sound
+/// yardstick (demanded by C01/C07 for the `gen_try_decidable` family).
+pub fn try_acquires_decidable(p: &Program) -> bool {
+    fn lock_id(o: &Op) -> Option<(u8, u8)> {
+        match o {
+            Op::Lock { m } | Op::TryLock { m } | Op::Unlock { m } | Op::UnwindLock { m } => Some((0, *m)),
+            Op::RLock { l } | Op::TryRLock { l } | Op::WLock { l } | Op::TryWLock { l } | Op::RUnlock { l } | Op::WUnlock { l } => Some((1, *l)),
+            _ => None,
+        }
+    }
+    #[derive(PartialEq)]
+    enum St {
+        Out,
+        Held((u8, u8), bool),
+        Try(u8, (u8, u8)),
+    }
+    let mut trier: Option<usize> = None;
+    let mut last_try_end = 0usize;
+    let mut blocked_chans: Vec<(u8, usize)> = Vec::new();
+    for (t, ops) in p.threads.iter().enumerate() {
+        let mut st = St::Out;
+        for (pc, op) in ops.iter().enumerate() {
+            if op.is_caught() {
+                return false;
+            }
+            if matches!(op.inner(), Op::CvWait { .. } | Op::CvWaitUntil { .. } | Op::UnwindLock { .. } | Op::Panic { .. } | Op::Crash) {
+                return false;
+            }
+            match st {
+                St::Out => match op {
+                    Op::Lock { .. } | Op::RLock { .. } | Op::WLock { .. } => st = St::Held(lock_id(op).unwrap(), false),
+                    Op::TryLock { .. } | Op::TryRLock { .. } | Op::TryWLock { .. } => {
+                        if trier.is_some() && trier != Some(t) {
+                            // (one trying thread: condition (B) is stated for it)
+                            return false;
+                        }
+                        trier = Some(t);
+                        st = St::Try(pc as u8, lock_id(op).unwrap());
+                    }
+                    Op::If { .. } => return false,
+                    _ => {
+                        if lock_id(op).is_some() {
+                            return false;
+                        }
+                    }
+                },
+                St::Held(l, blocked) => match op {
+                    Op::CRead { .. } | Op::CWrite { .. } => {}
+                    Op::Recv { c } if !blocked => {
+                        blocked_chans.push((*c, t));
+                        st = St::Held(l, true);
+                    }
+                    Op::Unlock { .. } | Op::RUnlock { .. } | Op::WUnlock { .. } if lock_id(op) == Some(l) => st = St::Out,
+                    _ => return false,
+                },
+                St::Try(tp, l) => match op {
+                    Op::If { pc: q, then, .. } if *q == tp && matches!(**then, Op::CRead { .. } | Op::CWrite { .. }) => {}
+                    Op::If { pc: q, eq: 1, then } if *q == tp && matches!(**then, Op::Unlock { .. } | Op::RUnlock { .. } | Op::WUnlock { .. }) && lock_id(then) == Some(l) => {
+                        st = St::Out;
+                        last_try_end = pc;
+                    }
+                    _ => return false,
+                },
+            }
+        }
+        if st != St::Out {
+            return false;
+        }
+    }
+    let trier = match trier {
+        Some(t) => t,
+        None => return true,
+    };
+    for (c, holder) in blocked_chans {
+        if holder == trier {
+            return false;
+        }
+        for (t, ops) in p.threads.iter().enumerate() {
+            for (pc, op) in ops.iter().enumerate() {
+                match op.inner() {
+                    Op::Send { c: x, .. } | Op::SendBomb { c: x, .. } | Op::DropTx { c: x } if *x == c => {
+                        if t != trier || pc <= last_try_end || matches!(op, Op::If { .. }) {
+                            return false;
+                        }
+                    }
+                    Op::TryRecv { c: x } | Op::DropRx { c: x } if *x == c => return false,
+                    _ => {}
+                }
+            }
+        }
+    }
+    true
 }
 
 /// `unpark` has no scheduling point and is not tracked by loom's partial-order reduction (K6):
